@@ -251,7 +251,9 @@ func (h *Session) Parse(p []byte) (frame Frame, err error) {
 		// If we don't have this, then we received all sent and forwarded packets with client IPs containing our host mac
 		// Validates arp len and that hardware len is 6 for mac address
 		srcIP := netip.AddrFrom4(*((*[4]byte)(arp[14:18])))
+		// the host is tracked under the arp sender mac, which can differ from the ethernet source: it must be a station mac too
 		if !bytes.Equal(frame.SrcAddr.MAC, h.NICInfo.HostAddr4.MAC) &&
+			IsUnicastMAC(net.HardwareAddr(arp[8:14])) && !bytes.Equal(net.HardwareAddr(arp[8:14]), h.NICInfo.HostAddr4.MAC) &&
 			frame.Session.NICInfo.HomeLAN4.Contains(srcIP) {
 			addr := Addr{MAC: net.HardwareAddr(arp[8:14]), IP: srcIP}    // use arp src mac and ip for lookup
 			frame.Host, _ = frame.Session.findOrCreateHostWithLock(addr) // will lock/unlock
